@@ -179,6 +179,9 @@ def main(run):
                 for kind, msg in window.check_path(p, start, end, buf):
                     if kind in ('unanalysable', 'tiling', 'underflow', 'placement'):
                         run.violation(f'handle|{kind}|{m}|{vn}', f'{PRE + m}({vn}): {msg} — a later accessor would slice outside the authority / panic')
+    # path handle (D1/D2): every path of push / pop / clear / normalize keeps the window and never indexes outside it
+    from . import c10
+    c10.handle_paths(run, P, 'C04')
     run.floor('sites_total', 300, 'unsafe sites enumerated')
     run.floor('closure_checks', 70, 'feasible setter paths whose result language was checked')
     return run.finish('model_checking', {
